@@ -5,7 +5,7 @@
    l1of o / l2of o = sparsity / ridge coefficient (0 when None), qp_f / qp_grad (Base/RSum.v) the
    penalised objective  v'Gv/2 - b'v + l1 sum v + l2 sum v^2  and its gradient. *)
 From Coq Require Import List Arith Reals Lra QArith Qabs.
-From TLV Require Import Base.Ops Base.Tensor Base.RSum Model.Nnls Proofs.NnlsProofs Proofs.NnlsProofsFista Proofs.NnlsProofsAset Proofs.NnlsProofsExamples.
+From TLV Require Import Base.Ops Base.Tensor Base.RSum Model.Nnls Proofs.NnlsProofs Proofs.NnlsProofsFista Proofs.NnlsProofsAset Proofs.NnlsProofsAsetCert Proofs.NnlsProofsExamples.
 Import ListNotations.
 Open Scope R_scope.
 
@@ -218,6 +218,37 @@ Print Assumptions C13_fista_fixed_point_optimal.
 (* ---------------------------------------------------------------------------------------------- *)
 (*  active_set_nnls                                                                                *)
 (* ---------------------------------------------------------------------------------------------- *)
+(* PARTIAL (hypothesis named below): exit certificate, for an abstract tl.solve satisfying its contract (every
+   equation of the block system holds) and ANY rounding function of the interpolation step.  Whenever the loop is
+   left through its termination test (flag true of active_set_run; active_set_nnls is its first component), the
+   returned point is clip(s, 0) for the support vector s of the final passive set p, and -- HYPOTHESIS: s is
+   non-negative (this is what the inner loop establishes unless its budget runs out; not proved here) and p has the
+   length of the problem -- it satisfies the KKT conditions within tol: x >= 0, (Utm - UtU x)_i = 0 on the passive
+   set, x_i = 0 and (Utm - UtU x)_i <= tol on the active set.  By C13_kkt_optimal with tol = 0 such a point is a
+   global minimiser.  Nothing is claimed when n_iter_max runs out (flag false). *)
+Theorem C13_active_set_exit_kkt_partial :
+  forall (solve : list (list R) -> list R -> option (list R)) (rnd : R -> R)
+         (Utm : list R) (UtU : list (list R)) (tol : R) (x0 : option (list R)) (n_iter_max : nat) (y : list R),
+  length UtU = length Utm -> (forall i, (i < length Utm)%nat -> length (nth i UtU []) = length Utm) ->
+  (forall A b ps, solve A b = Some ps -> Forall2 (fun row bi => dot Rops row ps = bi) A b) ->
+  active_set_run Rops solve rnd Utm UtU tol x0 n_iter_max = Some (y, true) ->
+  exists s p, solve_scatter Rops solve Utm UtU p = Some s /\ y = map (fmax Rops (f0 Rops)) s /\
+    (length p = length Utm -> Forall (fun v => 0 <= v) s ->
+     forall i, (i < length Utm)%nat ->
+       0 <= nth i y 0 /\
+       (nth i p true = true -> nth i (gradient Rops Utm UtU y) 0 = 0) /\
+       (nth i p true = false -> nth i y 0 = 0 /\ nth i (gradient Rops Utm UtU y) 0 <= tol)).
+Proof. exact active_set_exit_kkt. Qed.
+Print Assumptions C13_active_set_exit_kkt_partial.
+
+(* non-vacuity: the termination test is reached (flag true) from a warm and from a cold start, and a budget of one
+   iteration can run out (flag false); executed at the rational instance with the exact elimination as solve *)
+Example C13_active_set_exit_reachable :
+  active_set_run Qops (gauss_solve Qops) (fun x => x) rw_Utm rw_UtU rw_tol (Some rw_x0) 100 = Some ([0; 1 # 4]%Q, true) /\
+  active_set_run Qops (gauss_solve Qops) (fun x => x) rw_Utm rw_UtU rw_tol None 1 = Some ([0; 1 # 4]%Q, true) /\
+  active_set_run Qops (gauss_solve Qops) (fun x => x) [3; 3]%Q [[2; 1]; [1; 2]]%Q rw_tol None 1 = Some ([3 # 2; 0]%Q, false).
+Proof. exact active_set_run_witness. Qed.
+
 (* regression of the former rounding defect (before /repo dadc3ff): the interpolation step x + alpha (s - x) is
    modelled with a rounding function rnd; with |rnd x - x| <= 2^-60 leaving the blocking coordinate (exactly 0) at
    2^-60 the old code returned the non-KKT point (0, 0) on UtU = [[1,-1],[-1,4]], Utm = (-6, 1), x0 = (3, 1); the
